@@ -210,3 +210,84 @@ def gen_requests(rng):
         p = rng.choice(["/", "/a", "/a/b.html", "/rec", "/%41", "/a?x=1&y=2", "/?q=%20", "/" + "p" * rng.choice([1, 100, 2000])])
         out.append((m, p))
     return out
+
+
+# ---------------------------------------------------------------- (D) bound-relevant statement x syntactic position x scope
+# Every statement that a bound of C08 is about is placed at every syntactic position from which the
+# interpreter can execute it, in every subroutine of the request flow.  The product is finite and
+# small; the oracle is the direct one (terminates within the watchdog, no panic / fatal error,
+# restarts <= 3) and it yields the concrete program.
+
+POS_STATEMENTS = {
+    "restart": "restart;",
+    "return-restart": "return(restart);",
+    "error": "error 601;",
+    "call-recursive": "call zrec;",
+    "call-recursive-functional": "call zfrec();",
+    "expr-recursive-functional": "declare local var.zx BOOL; set var.zx = zfexp();",
+    "include-self": 'include "zself";',
+}
+
+POS_PRELUDE = (
+    "sub zrec { call zrec; }\n"
+    "sub zfrec BOOL { call zfrec(); return true; }\n"
+    "sub zfexp BOOL { declare local var.zy BOOL; set var.zy = zfexp(); return true; }\n"
+)
+
+T_ = "!req.http.Nope"      # a condition that holds
+F_ = "req.http.Nope"       # one that does not
+
+
+def _pos_table():
+    """position name -> function(S) -> (body of the lifecycle sub, helper subroutines)"""
+    f_top = lambda S: "sub zf1 BOOL {\n%s\nreturn true;\n}\n" % S
+    f_nest = lambda S: "sub zf1 BOOL {\nif (%s) {\n%s\n}\nreturn true;\n}\n" % (T_, S)
+    return {
+        "top": lambda S: (S, ""),
+        "block": lambda S: ("{\n%s\n}" % S, ""),
+        "if-arm": lambda S: ("if (%s) {\n%s\n}" % (T_, S), ""),
+        "else-arm": lambda S: ("if (%s) {\n} else {\n%s\n}" % (F_, S), ""),
+        "elseif-arm": lambda S: ("if (%s) {\n} else if (%s) {\n%s\n}" % (F_, T_, S), ""),
+        "nested-if-if": lambda S: ("if (%s) {\nif (%s) {\n%s\n}\n}" % (T_, T_, S), ""),
+        "switch-case": lambda S: ('switch ("a") {\ncase "a":\n%s\nbreak;\ndefault:\nbreak;\n}' % S, ""),
+        "switch-default": lambda S: ('switch ("a") {\ncase "b":\nbreak;\ndefault:\n%s\nbreak;\n}' % S, ""),
+        "switch-fallthrough": lambda S: ('switch ("a") {\ncase "a":\nfallthrough;\ncase "b":\n%s\nbreak;\n}' % S, ""),
+        "user-sub": lambda S: ("call zu1;", "sub zu1 {\n%s\n}\n" % S),
+        "user-sub-nested": lambda S: ("call zu1;", "sub zu1 {\nif (%s) {\n%s\n}\n}\n" % (T_, S)),
+        "user-sub-two-levels": lambda S: ("call zu1;", "sub zu1 {\ncall zu2;\n}\nsub zu2 {\n%s\n}\n" % S),
+        "functional-called": lambda S: ("call zf1();", f_top(S)),
+        "functional-called-nested": lambda S: ("call zf1();", f_nest(S)),
+        "functional-called-in-if": lambda S: ("if (%s) {\ncall zf1();\n}" % T_, f_top(S)),
+        "functional-in-set": lambda S: ("declare local var.zb BOOL;\nset var.zb = zf1();", f_top(S)),
+        "functional-in-set-nested": lambda S: ("declare local var.zb BOOL;\nset var.zb = zf1();", f_nest(S)),
+        "functional-in-condition": lambda S: ("if (zf1()) {\n}", f_top(S)),
+        "user-then-functional": lambda S: ("call zu1;", "sub zu1 {\ncall zf1();\n}\n" + f_top(S)),
+        "functional-then-user": lambda S: ("call zf1();", "sub zf1 BOOL {\ncall zu2;\nreturn true;\n}\nsub zu2 {\n%s\n}\n" % S),
+        "functional-then-functional": lambda S: ("call zf2();", "sub zf2 BOOL {\ncall zf1();\nreturn true;\n}\n" + f_top(S)),
+        "functional-expr-then-functional": lambda S: ("declare local var.zb BOOL;\nset var.zb = zf2();",
+                                                      "sub zf2 BOOL {\ncall zf1();\nreturn true;\n}\n" + f_top(S)),
+    }
+
+
+POSITIONS = _pos_table()
+
+# how a request gets to the subroutine of a scope (besides the default lookup -> miss -> fetch -> deliver -> log flow)
+POS_ROUTE = {"pass": "sub vcl_recv {\nreturn(pass);\n}\n", "error": "sub vcl_recv {\nerror 601;\n}\n", "recv": ""}
+POS_ROUTE_DEFAULT = "sub vcl_recv {\nreturn(lookup);\n}\n"      # without a vcl_recv the simulator passes
+
+
+def position_program(stmt, pos, scope):
+    # the log line marks that the position was reached (the reply counts the log lines)
+    body, helpers = POSITIONS[pos]('log "zpos";\n' + POS_STATEMENTS[stmt])
+    main = BACKEND + POS_PRELUDE + helpers + POS_ROUTE.get(scope, POS_ROUTE_DEFAULT) + "sub vcl_%s {\n%s\n}\n" % (scope, body)
+    mods = [("main", main), ("zself", 'include "zself";\n')]
+    # the same URL twice: the second request finds the object of the first (vcl_hit)
+    reqs = [("GET", "/pos"), ("GET", "/pos")] if scope in ("hit", "deliver", "log") else [("GET", "/pos")]
+    return mods, reqs
+
+
+def position_product():
+    for stmt in POS_STATEMENTS:
+        for pos in POSITIONS:
+            for scope in SCOPES:
+                yield stmt, pos, scope
